@@ -286,6 +286,7 @@ let parse_op (toks : string list) : op option =
       let e = int_tok e in
       if e < 4 || e > 7 then raise (Bad_case "entry");
       Some (ORender (n_of_int e, str_tok x, parse_json_tok j, failat_tok fa))
+  | [ "rthr"; _; _; x; j ] -> Some (ORender (n_of_int 0, str_tok x, parse_json_tok j, None))
   | [ "cmp"; x ] -> Some (OCmp (str_tok x))
   | [ "tok"; r; x ] -> (
       match rule_of_name r with
@@ -430,10 +431,14 @@ let run_case_line (line : string) : string =
             match parsed with
             | [] -> SL.rev acc
             | (g, None) :: r -> zip r obs (("UNKNOWN-OP:" ^ SL.hd g) :: acc)
-            | (_, Some o) :: r ->
+            | (g, Some o) :: r ->
                 if is_observing o then (
                   match obs with
-                  | b :: obs' -> zip r obs' (obs_text o b :: acc)
+                  | b :: obs' ->
+                      let t = obs_text o b in
+                      (* threads cannot be exhibited by the model: one sequential render stands for all *)
+                      let t = if SL.hd g = "rthr" then "T:1:" ^ t else t in
+                      zip r obs' (t :: acc)
                   | [] -> raise (Bad_case "obs underflow"))
                 else zip r obs acc
           in
